@@ -50,7 +50,7 @@ def make_resolver(built, coord, spec):
     async def resolver(parent, args, ctx, info):
         built.calls.append({"coord": coord, "path": path_list(info), "parent": enc(parent), "args": enc(dict(args)), "ctx": ctx})
         if built.gate is not None:
-            await built.gate(coord, path_list(info))
+            await built.gate(coord, path_list(info), ctx)
         if kind == "const": return dec(spec["v"])
         if kind == "raise": raise dec(spec["v"])
         if kind == "parentKey":
@@ -103,6 +103,7 @@ async def build_engine(model, renv, cfg=None, sdl=None, engine_kwargs=None):
                 try:
                     fd = schema.get_field_by_name(f"{t['name']}.{f['name']}")
                     f["parentConc"] = bool(fd.parent_concurrently)
+                    f["listConc"] = bool(fd.list_concurrently)
                 except Exception:
                     pass
     b.model = m
